@@ -572,3 +572,15 @@ def absent_or_empty_arms(prog, body, src):
                 if res and "Event" in res[0]:
                     out.append(res[0]["Event"])
     return out
+
+
+def carries_handle_clone(reg, op, clone_blocks, depth=0):
+    """operand contains a value produced by one of the clone() calls"""
+    for o in origins(reg, op):
+        if o[0] == "call" and o[1] in clone_blocks:
+            return True
+        if o[0] == "agg" and len(o) == 3 and depth < 3:
+            agg = reg.blocks[o[1]]["stmts"][o[2]]["rv"]["agg"]
+            if any(carries_handle_clone(reg, x, clone_blocks, depth + 1) for x in agg["ops"]):
+                return True
+    return False
